@@ -5,13 +5,84 @@ import (
 	"math/rand"
 	"net"
 	"net/netip"
+	"runtime"
 	"time"
 
 	"github.com/uhppoted/uhppote-core/types"
 	"github.com/uhppoted/uhppote-core/uhppote"
 )
 
-func init() { commands["c11"] = runC11 }
+func init() { commands["c11"] = runC11; commands["c09disc"] = runC09Disc }
+
+// runC09Disc: C09 for discovery - GetDevices while datagrams keep arriving up to and beyond the deadline (a valid
+// reply early in the window, then a datagram every millisecond from 0.7 T to 1.15 T). Every call must return
+// within T plus slack, and afterwards the process must hold no more goroutines or sockets than before.
+func runC09Disc(o *opts) (*summary, error) {
+	lt, err := loadLayouts(o.extraArg("layouts"))
+	if err != nil {
+		return nil, err
+	}
+	w, err := newShardWriter(o.out, "api", o.shards)
+	if err != nil {
+		return nil, err
+	}
+	rng := rand.New(rand.NewSource(o.seed))
+	n := 12
+	if o.tier == "thorough" {
+		n = 150
+	}
+	tick := 30 * time.Millisecond
+	T := 3
+	timeout := time.Duration(T) * tick
+	bc := listenUDP()
+	defer bc.Close()
+	floods := 0
+	go func() {
+		buf := make([]byte, 2048)
+		for {
+			_, src, err := bc.ReadFromUDP(buf)
+			if err != nil {
+				return
+			}
+			asked := time.Now()
+			go func() {
+				time.Sleep(timeout / 5)
+				bc.WriteToUDP(discoveryDatagram(rng, lt, "valid1", nil), src)
+				time.Sleep(time.Until(asked.Add(timeout * 7 / 10)))
+				for time.Since(asked) < timeout*115/100 {
+					bc.WriteToUDP([]byte{0x17, 0x94, 0, 0, 1, 2, 3, 4, 5, 6}, src) // wrong length: contributes nothing either way
+					floods++
+					time.Sleep(time.Millisecond)
+				}
+			}()
+		}
+	}()
+	bind := types.BindAddr{AddrPort: netip.AddrPortFrom(netip.AddrFrom4([4]byte{127, 0, 0, 1}), 0)}
+	u := uhppote.NewUHPPOTE(bind, types.BroadcastAddr{AddrPort: udpAddrPort(bc)}, types.ListenAddr{}, timeout, nil, false)
+	u.GetDevices() // warm-up (lazy runtime goroutines, resolver, ...)
+	time.Sleep(timeout)
+	g0, f0 := settle()
+	maxElapsed, minElapsed, listed := time.Duration(0), time.Hour, 0
+	for i := 0; i < n; i++ {
+		t0 := time.Now()
+		v, err := u.GetDevices()
+		el := time.Since(t0)
+		if el > maxElapsed {
+			maxElapsed = el
+		}
+		if el < minElapsed {
+			minElapsed = el
+		}
+		if err == nil {
+			listed += len(v)
+		}
+	}
+	time.Sleep(2 * timeout)
+	g1, f1 := settle()
+	w.put(M{"op": "Quiesce", "what": "discovery-flood", "calls": n, "listed": listed, "floods": floods, "goroutines_before": g0, "goroutines_after": g1, "fds_before": f0, "fds_after": f1,
+		"elapsed_max_ms": int(maxElapsed / time.Millisecond), "elapsed_min_ms": int(minElapsed / time.Millisecond), "T_ms": int(timeout / time.Millisecond)}, "quiesce", "discovery-flood")
+	return w.close(), nil
+}
 
 var discClasses = []string{"valid1", "valid2", "dup", "badlen", "badproto", "badcode", "badbcd"}
 
@@ -46,6 +117,19 @@ func discoveryDatagram(rng *rand.Rand, lt *layoutTables, cls string, prev []byte
 		m[30], m[31] = bcd2(13+rng.Intn(80)), bcd2(1+rng.Intn(28))
 	}
 	return m
+}
+
+// settle: goroutine and socket counts once things have calmed down (a few short sleeps, a GC in between)
+func settle() (goroutines int, fds int) {
+	best := 1 << 30
+	for i := 0; i < 6; i++ {
+		time.Sleep(40 * time.Millisecond)
+		runtime.GC()
+		if g := runtime.NumGoroutine(); g < best {
+			best = g
+		}
+	}
+	return best, countFDs()
 }
 
 func runC11(o *opts) (*summary, error) {
@@ -181,15 +265,32 @@ func runC11(o *opts) (*summary, error) {
 			case src = <-got:
 			case <-time.After(2 * time.Second):
 			}
+			asked := time.Now()
 			if src != nil {
-				// spread over the first T-1.5 ticks, sequentially (arrival order = send order)
-				gap := time.Duration(float64(T-1) * float64(tick) / float64(len(dgs)+1) * 0.6)
+				// spread over the first 0.6 T (the last one 1.6 ticks inside the window), sequentially (arrival order = send order)
+				gap := time.Duration(float64(T) * float64(tick) * 0.6 / float64(len(dgs)+1))
+				if len(dgs) > 0 {
+					gap = time.Duration(float64(T) * float64(tick) * 0.6 / float64(len(dgs)))
+				}
 				for _, b := range dgs {
 					time.Sleep(gap)
 					bc.WriteToUDP(b, src)
 				}
 			}
-			ret := <-done
+			// every other scenario: a valid reply 0.35 T AFTER the timeout, whether or not the call has returned by then
+			// ("received before the timeout": it must not be listed; a window that is re-armed by every datagram lists it)
+			var ret M
+			if src != nil && i%2 == 0 {
+				select {
+				case ret = <-done:
+				case <-time.After(time.Until(asked.Add(time.Duration(float64(T) * float64(tick) * 1.35)))):
+					bc.WriteToUDP(discoveryDatagram(r, lt, "valid2", nil), src)
+				}
+			}
+			if ret == nil {
+				ret = <-done
+			}
+			elapsed := time.Since(asked)
 			// after the window: a late valid reply to the (now closed) port
 			if src != nil {
 				bc.WriteToUDP(discoveryDatagram(r, lt, "valid2", nil), src)
@@ -199,7 +300,8 @@ func runC11(o *opts) (*summary, error) {
 				delivered = append(delivered, M{"b": ints(b), "keep": true})
 			}
 			results <- M{"op": "GetDevices", "a": M{"serial": u32(0)}, "sent": []any{}, "route": M{"m": "none"}, "ncalls": 1, "delivered": delivered,
-				"ret": ret, "render": M{"string": "ok", "json": "ok"}, "cfg": projCfgRouted(cfg), "classes": seq, "rig": "L", "asked": src != nil}
+				"ret": ret, "render": M{"string": "ok", "json": "ok"}, "cfg": projCfgRouted(cfg), "classes": seq, "rig": "L", "asked": src != nil,
+				"elapsed_ms": int(elapsed / time.Millisecond), "T_ms": int(time.Duration(T) * tick / time.Millisecond)}
 		}(i, seq, seed)
 	}
 	for i := 0; i < nL; i++ {
